@@ -997,12 +997,19 @@ def main():
         consts = gen_consts()
         if write_if_changed("Consts.lean", consts):
             report["changed"].append("Consts.lean")
-        const_names = re.findall(r"^def ([A-Z0-9_]+) ", consts, flags=re.M)
+    except ExtractError as e:
+        report["errors"].append("consts: %s" % e)
+    try:
+        # the enums only need the names of the constants (to avoid clashes); fall back to the last good file
+        cn_src = consts
+        if cn_src is None and os.path.exists(os.path.join(OUT, "Consts.lean")):
+            cn_src = open(os.path.join(OUT, "Consts.lean")).read()
+        const_names = re.findall(r"^def ([A-Z0-9_]+) ", cn_src or "", flags=re.M)
         enums = gen_enums(const_names)
         if write_if_changed("Enums.lean", enums):
             report["changed"].append("Enums.lean")
     except ExtractError as e:
-        report["errors"].append("consts/enums: %s" % e)
+        report["errors"].append("enums: %s" % e)
     for fname, prefix, gen in [("FnsNanBox.lean", "fns-nanbox", lambda: gen_fns_nanbox(re.findall(r"^def ([A-Z0-9_]+) ", consts or "", flags=re.M))),
                                ("FnsLogs.lean", "fns-logs", gen_fns_logs),
                                ("FnsState.lean", "fns-state", gen_fns_state),
